@@ -21,7 +21,7 @@ STEM = {"s": ["report", "a", "x-y_z", "R2"], "u": ["r√©sum√©", "—Ñ–∞–π–ª", "ÊñáÊ
 EXT = {"docx": ["docx", "txt", "pdf", "odt", "html"], "gz": ["gz", "tar", "bak", "v2"], "UP": ["DOCX", "PDF", "Txt", "RTF"]}
 FIELD_LETTER = {"title": "t", "author": "u", "subject": "s", "keywords": "k", "description": "d"}
 CLASS_CHAR = {"e1": "√©", "cy": "–ñ", "em": "\U0001F600", "dq": '"', "sq": "'", "lb": "{", "rb": "}", "am": "&",
-              "lt": "<", "bs": "\\", "sp": " "}
+              "lt": "<", "bs": "\\", "sp": " ", "nl": "p\nq", "tb": "p\tq", "ds": "p  q"}
 FIELDS = ["title", "author", "subject", "keywords", "description"]
 # binding: abstract property -> attribute of the metadata object (first that exists)
 ATTR = {"title": ("title",), "author": ("author", "creator"), "subject": ("subject",), "keywords": ("keywords",),
@@ -1021,7 +1021,7 @@ def name_variant(pkg: bytes, fmt, which, kind) -> bytes:
             return attr_sub(r"<sheet\b[^>]*/>", "name")(data.decode("utf-8")).encode("utf-8")
         if fmt == "pptx" and re.fullmatch(r"ppt/slides/slide\d+\.xml", part):
             return attr_sub(r"<p:cSld\b[^>]*>", "name")(data.decode("utf-8")).encode("utf-8")
-        if fmt == "epub" and part.endswith(".xhtml"):
+        if fmt == "epub" and part.endswith((".xhtml", ".html", ".htm")):
             x = data.decode("utf-8")
             n[0] += 1
             if which == "first" and n[0] > 1:
@@ -1110,6 +1110,7 @@ def struct_doc(fmt, items, pics, seed=0):
     """Flow document whose body is the given sequence of h1 / h2 / h3 / p / e(mpty paragraph) / t(able) items."""
     from .docrun import rich_doc
     n = [0]
+    ntables = [(seed + len(items)) % 3]
 
     def tok():
         n[0] += 1
@@ -1123,7 +1124,11 @@ def struct_doc(fmt, items, pics, seed=0):
         elif it == "e":
             blocks.append(["p", []])
         else:
-            blocks.append(["tbl", [[[["p", [tok()]]], [["p", [tok()]]]], [[["p", [tok()]]], [["p", [tok()]]]], [[["p", [tok()]]], [["p", [tok()]]]]]])
+            # tables alternate between a regular 3 x 2 grid, a one-cell banner row above two three-cell rows, and a grid
+            # whose last row is the widest: get_dim() must be the shape of get_table() for ragged grids too
+            widths = ([2, 2, 2], [1, 3, 3], [2, 1, 3])[ntables[0] % 3]
+            ntables[0] += 1
+            blocks.append(["tbl", [[[["p", [tok()]]] for _ in range(w)] for w in widths]])
     doc = {"kind": "flow", "blocks": blocks, "header": [], "footer": [], "props": {"title": "zqT"}}
     if pics:
         doc["images"] = rich_doc(fmt, seed).get("images") or []
